@@ -72,17 +72,25 @@ CHECKS.update({
 SEM = "Tie: for every program of this run the denoted tree of the REAL output equals the tree of the Lean lowering model (Cfg.asCode); search: Lean executes the C program and the real effect on boundary + pseudo-random states. Programs whose failure falls into a listed carve-out class (the construct is present) are KNOWN-FINDINGs, anything else a violation. "
 CHECKS.update({
  "C02": dict(
-   text="Proof (current state): typing facts of the C side (common type symmetric, promotion, shift/compare/logical result types, 0/1 results); the operator-by-operator preservation theorem for the repaired configuration (expr_correct_fixed) and the carve-out equality asCode = fixed are being proved on the lowering model and are not claimed until they build. " + SEM + "Programs: exhaustive operator x left type x right type at depth 1 (binary, shifts, six comparisons as condition and as value, && ||, ?:, unary) + generated clean/wild expressions.",
+   text="Proof: expr_correct_fixed — for EVERY expression of the modelled dialect (unbounded depth; arithmetic, bitwise, shifts, six comparisons, && || !, ?:, casts, unary, literals, registers, immediates, locals, loads, QEMU macros), every state and macro interpretation, the IL emitted by the repaired lowering (Cfg.fixed) evaluates to the value the C11 semantics gives, with the C result type, under the explicit decidable well-formedness guard WFE; result-type corollaries (shift_result_type, cmp_result_01, cmp_signed_iff_common_signed); expr_asCode_eq_fixed — on the decidable carve-out CarveE the lowering AS THE CODE DOES IT (Cfg.asCode) emits the same IL as the repaired one, hence expr_correct_asCode_carved; outside the carve-out nine kernel-checked witnesses (…_carved / …_differs) show the two differ — these are the listed known findings; two findings about the C side guard (shift by a bool, huge literal). " + SEM + "Programs: exhaustive operator x left type x right type at depth 1 (binary, shifts, six comparisons as condition and as value, && ||, ?:, unary) + generated clean/wild expressions.",
    note=TB + "C side Model/CSem.lean and IL side Model/ILSem.lean are the specification (DESIGN 3.1/3.2, modelled not verified); lowering model Model/Compile.lean (hand-written mirror with defect switches) tied by tree comparison with the real output on every run; states sampled inside Lean only for the failing-input search.", technique="Lean 4 lowering model + theorems; tie by tree equality with real output; Lean-executed C-vs-IL search", ref="DESIGN.md section 4, C02"),
  "C03": dict(
-   text="Proof: conversion on bit patterns (narrowing keeps low bits; widening sign-extends iff the SOURCE is signed), the code's cast equals the conforming cast except for a signed source widened into an unsigned target (initACast_asCode_eq_fixed_partial) with the kernel-checked witness of the difference; the value-level preservation theorem for every context is being proved and not claimed until it builds. " + SEM + "Programs: all 8x8 type pairs in initialisation, assignment, chained assignment, explicit cast, register write, memory store, jump target, macro argument, chains of casts, boolean sources.",
+   text="Proof: initACast_fixed_correct — for ALL source/target types and values the repaired conversion yields convC (narrowing keeps low bits, widening sign-extends iff the SOURCE is signed, bool sources give 0/1), kind-irrelevance, conversion chains (conv_chain, conv_chain_promote); initACast_asCode_eq_fixed on the decidable predicate CastSafe and initACast_asCode_sem_eq_fixed_narrow; kernel-checked witness t3_int8_to_uint64_* that the code's cast of a signed source into a wider unsigned target zero-extends (listed known finding); the per-context statement (initialiser, assignment, store, jump, macro argument) follows from stmt_correct_fixed of C05. " + SEM + "Programs: all 8x8 type pairs in initialisation, assignment, chained assignment, explicit cast, register write, memory store, jump target, macro argument, chains of casts, boolean sources.",
    note=TB + "C side Model/CSem.lean and IL side Model/ILSem.lean are the specification (DESIGN 3.1/3.2, modelled not verified); lowering model Model/Compile.lean (hand-written mirror with defect switches) tied by tree comparison with the real output on every run; states sampled inside Lean only for the failing-input search.", technique="Lean 4 lowering model + theorems; tie by tree equality with real output; Lean-executed C-vs-IL search", ref="DESIGN.md section 4, C03"),
  "C05": dict(
-   text="Proof (current state): Sequence/EMPTY laws and the compound-assignment expansion on the model; the statement-level preservation theorem for all fuel/trip counts (stmt_correct_fixed) is being proved and not claimed until it builds. " + SEM + "Programs: generated statement sequences (nesting <= 3, if/else, for with ++ and += steps and compound conditions, all assignment operators, chained assignments, register/local/memory writes, jumps).",
+   text="Proof: stmt_correct_fixed / prog_correct_fixed_closed — for EVERY statement list of the modelled dialect (declarations, simple/compound/chained assignment to locals and registers, memory stores, if/else, for loops with ++ and += steps, jumps, nesting unbounded), every fuel (trip count) and initial state, executing the effect emitted by the repaired lowering from a related state ends in a related state whenever the C execution is defined (simulation by induction on fuel, invariant Inv: registers, .new bank, memory, store log, locals, immediates); prog_asCode_eq_fixed_closed — on the decidable carve-out CarveS the lowering as the code does it emits the same effect, hence prog_correct_asCode_closed; structural lemmas (if_exactly_one_arm, for_order, for_iteration, assign_updates_only_target); kernel-checked witnesses t3_compound_narrow_differs and chain_counterexample (`a = b += a`: listed known finding), stmt_correct_fixed_unrestricted_false (the unguarded statement is refuted). " + SEM + "Programs: generated statement sequences (nesting <= 3, if/else, for with ++ and += steps and compound conditions, all assignment operators, chained assignments, register/local/memory writes, jumps).",
    note=TB + "C side Model/CSem.lean and IL side Model/ILSem.lean are the specification (DESIGN 3.1/3.2, modelled not verified); lowering model Model/Compile.lean (hand-written mirror with defect switches) tied by tree comparison with the real output on every run; states sampled inside Lean only for the failing-input search.", technique="Lean 4 lowering model + theorems; tie by tree equality with real output; Lean-executed C-vs-IL search", ref="DESIGN.md section 4, C05"),
  "C09": dict(
-   text="Proof (current state): C11 6.4.4.1 literal typing vs the code's suffix-only typing (agreement on small literals, kernel-checked witnesses of the difference), normalisation of folded values; fold soundness for the repaired folding is being proved and not claimed until it builds. " + SEM + "Programs: literal spellings (decimal/hex x suffixes x values around 2^7..2^64) under foldable operators, folded comparisons, constant ?: conditions with register arms, the unfolded (through a local) variants.",
+   text="Proof: fold_sound_fixed / fold_sound_fixed_bool — whenever the repaired lowering folds an expression to a literal r, the C value of the expression is r in the C type, for every expression shape (unary, + - *, comparisons, constant ?: conditions); fold_asCode_eq_fixed on the decidable predicate FoldSafe (the code's Python-int folding agrees), fold_asCode_eq_fixed_lit (suffix-only literal typing agrees with C11 6.4.4.1 exactly when litTypeCode = litTypeC); kernel-checked witnesses lit_big_*, negU_*, cmpMixed_*, ternConst_* of the differences (listed known findings). " + SEM + "Programs: literal spellings (decimal/hex x suffixes x values around 2^7..2^64) under foldable operators, folded comparisons, constant ?: conditions with register arms, the unfolded (through a local) variants.",
    note=TB + "C side Model/CSem.lean and IL side Model/ILSem.lean are the specification (DESIGN 3.1/3.2, modelled not verified); lowering model Model/Compile.lean (hand-written mirror with defect switches) tied by tree comparison with the real output on every run; states sampled inside Lean only for the failing-input search.", technique="Lean 4 lowering model + theorems; tie by tree equality with real output; Lean-executed C-vs-IL search", ref="DESIGN.md section 4, C09"),
+})
+CHECKS.update({
+ "C06": dict(
+   text="Proof (partial): facts about the hybrid machinery of the lowering model (popPending never invents entries, rendering order of set-value vs execute for postfix and calls); the ordering/exactly-once theorems over all placements are in progress and not claimed until they build. " + "Tie: for every program of this run the denoted tree of the REAL output equals the tree of the Lean hybrid lowering model (Model/CompileH.lean, code configuration); search: Lean executes the effectful C semantics (Model/CSemH.lean) and the real effect on boundary + pseudo-random states. Failures in a listed carve-out class are KNOWN-FINDINGs, anything else a violation. " + "Programs: directed families (each hybrid kind in initialiser, assignment, condition, loop step, call argument, ?: arm, unused expression statement; 0..4 hybrids per program) + generated programs with hybrids.",
+   note=TB + "C side Model/CSemH.lean (effectful expressions, sequence points as in C11 for the generated programs; programs with unsequenced interference are not judged) and IL side Model/ILSem.lean are the specification; lowering model Model/CompileH.lean tied by tree comparison with the real output on every run.", technique="Lean 4 lowering model with pending-hybrid state + lemmas; tie by tree equality with real output; Lean-executed C-vs-IL search", ref="DESIGN.md section 4, C06"),
+ "C08": dict(
+   text="Proof (partial): rendering facts of the call hybrid (execute then set the temporary from ret_val with the declared signedness/width); calling-convention theorems are in progress and not claimed until they build. " + "Tie: for every program of this run the denoted tree of the REAL output equals the tree of the Lean hybrid lowering model (Model/CompileH.lean, code configuration); search: Lean executes the effectful C semantics (Model/CSemH.lean) and the real effect on boundary + pseudo-random states. Failures in a listed carve-out class are KNOWN-FINDINGs, anything else a violation. " + "Programs: calls of every bundled sub-routine with all argument type combinations, nested calls, 1..4 calls per expression, calls in dead ?: arms; the REAL compiled bodies of the sub-routines are executed by Lean for the callee; per-output sort/well-formedness/linearity problems of every compiled sub-routine body count as violations; long-lived compiler instances (temporary numbering continues).",
+   note=TB + "callee semantics: the real compiled body executed in the caller's flat IL namespace (as RzIL does); C side of bundled sub-routines: Model/CSemH.lean builtinSub (hand-written from sub_routines.json, conv_round by its C text).", technique="Lean 4 lowering model + lemmas; tie by tree equality with real output; Lean-executed C-vs-IL search incl. real callee bodies", ref="DESIGN.md section 4, C08"),
 })
 NOT_YET = {}
 ALL = [f"C{i:02d}" for i in range(1, 21)]
